@@ -43,6 +43,14 @@ theorem safe_bind_iff {α β} (x : Out α) (f : α → Out β) :
 theorem safe_bind {α β} {x : Out α} {f : α → Out β} (hx : x.Safe) (hf : ∀ a, x = .ok a → (f a).Safe) :
     (x >>= f).Safe := (safe_bind_iff x f).mpr ⟨hx, hf⟩
 
+/-- A successful bind: the head succeeded and the continuation produced the value. -/
+theorem bind_eq_ok {α β} {x : Out α} {f : α → Out β} {r : β} (h : (x >>= f) = .ok r) :
+    ∃ a, x = .ok a ∧ f a = .ok r := by
+  cases x with
+  | ok a => exact ⟨a, rfl, h⟩
+  | err k => cases h
+  | panic => cases h
+
 theorem safe_ite {α} (c : Prop) [Decidable c] (a b : Out α) :
     (if c then a else b).Safe ↔ (c → a.Safe) ∧ (¬ c → b.Safe) := by
   by_cases h : c <;> simp [h]
